@@ -41,15 +41,17 @@ def mk_history(nsteps, nvalues=3, first_independent=True, first_mask=None):
     for r_ in RADIX:
         TOTAL *= r_
 
+    NBLOCKS = W.nblocks(TOTAL)
+
     def check(code: int) -> bool:
         """
-        pre: 0 <= code < TOTAL
+        pre: 0 <= code < NBLOCKS
         post: _
         """
-        _ = TOTAL
-        code, untraced = W.concrete(code)
+        _ = NBLOCKS
+        code, untraced = W.concrete(code)  # `code` numbers a block of W.BLOCK consecutive inputs (see vlib.w.nblocks)
         with untraced:
-            return body(code)
+            return W.run_block(code, TOTAL, body)
 
     def body(code):
         postponed = code % 2
